@@ -150,7 +150,8 @@ class HistoryRunner:
             prop, clause = v.prop, v.clause
             own = getattr(self, "own_prop", None)
             claims = set(getattr(self, "claims", ())) & set(self.pending_changes)
-            if own and prop != own and prop in ("C01", "C02", "C05") and claims:
+            if own and prop != own and prop in ("C01", "C02", "C05") and claims \
+                    and not (v.sig or {}).get("nested_csum"):      # (the nested-checksum over-build is D12: C02/C03's)
                 # the first command after a change of the kind this property is about went wrong (stale content,
                 # wrong status, wrong set of scripts): that is this property's violation, whatever generic clause
                 # noticed it first
@@ -457,6 +458,58 @@ class HistoryRunner:
             # C03's own clauses first, so that a change that is not forwarded is reported as that (and not only as
             # the stale content it causes)
             self.check_csum(targets, ok, ex, cex, mex, nested, ctx, final=False)
+        # ---------- C11: files redo did not produce are untouched (bytes, inode, mtime) ----------
+        if "userfiles" in ch:
+            bad = []
+            for p, f in m.fs.items():
+                if f.owner != "user":
+                    continue
+                got = disk.read(p)
+                try:
+                    st = os.lstat(disk.abspath(p))
+                    cur = (st.st_ino, st.st_mtime_ns, st.st_size)
+                except FileNotFoundError:
+                    cur = None
+                if got != f.data or (p in self.ustat and cur != self.ustat[p]):
+                    bad.append({"path": p, "got": _short(got), "want": _short(f.data), "stat": cur,
+                                "stat_before": self.ustat.get(p)})
+            if bad:
+                self.violate("C11", "user-file-changed", dict(ctx, bad=bad), self.user_changed_sig(bad))
+            text = res.text()
+            for p in m.warned:
+                ev["c11:override-warning-expected"] += 1
+                if "you modified it" not in text or posixpath.basename(p) not in text:
+                    self.violate("C11", "no-override-warning", dict(ctx, path=p), {"symptom": "no-warning"})
+            for t in targets:
+                f = m.fs.get(t)
+                if f is not None and f.owner == "user":
+                    self.out.nontrivial = True
+                    ev["c11:build-requested-on-user-owned:" + self.user_kind.get(t, "never-generated")] += 1
+                    if posixpath.dirname(m.rule_for(t)[0]) != posixpath.dirname(t) if m.rule_for(t) else False:
+                        ev["c11:default-rule-in-parent-dir"] += 1
+                    if self.role_changes[t] >= 2:
+                        ev["c11:role-changed>=2"] += 1
+        # ---------- C02 (and the properties that claim it): execution multiset, BEFORE the generic content oracle so
+        # that a wrong set of executed scripts is reported as that and not only as the stale content it causes ----------
+        if "execset" in ch:
+            if cex != mex:
+                extra = sorted((cex - mex).elements())
+                missing = sorted((mex - cex).elements())
+                prop = getattr(self, "execset_prop", "C02")
+                if nested and not missing:
+                    prop = "C02"   # the nested-checksum over-build (D12) is C02/C03's subject, nobody else's
+                if not missing and getattr(self, "execset_extra_prop", None):
+                    prop = self.execset_extra_prop   # an over-build is not this property's subject
+                self.violate(prop, "exec-set", dict(ctx, extra=extra, missing=missing),
+                             {"symptom": "extra" if extra and not missing else
+                              ("missing" if missing and not extra else "both"),
+                              "nested_csum": bool(nested and not missing)})
+            if self.pending_changes and mex and len(set(mex)) < len(m.targets):
+                self.out.nontrivial = True
+            if not self.pending_changes and not mex:
+                ev["c02:repeat-runs-nothing"] += 1
+            for c in self.pending_changes:
+                ev["c02:after-" + c] += 1
         # ---------- C01: contents after a successful command ----------
         if ok and "content" in ch:
             memo = {}
@@ -503,37 +556,6 @@ class HistoryRunner:
             if nested and not (mex - cex):
                 ev["diverged:nested-csum-overbuild"] += 1
             return
-        # ---------- C11: files redo did not produce are untouched (bytes, inode, mtime) ----------
-        if "userfiles" in ch:
-            bad = []
-            for p, f in m.fs.items():
-                if f.owner != "user":
-                    continue
-                got = disk.read(p)
-                try:
-                    st = os.lstat(disk.abspath(p))
-                    cur = (st.st_ino, st.st_mtime_ns, st.st_size)
-                except FileNotFoundError:
-                    cur = None
-                if got != f.data or (p in self.ustat and cur != self.ustat[p]):
-                    bad.append({"path": p, "got": _short(got), "want": _short(f.data), "stat": cur,
-                                "stat_before": self.ustat.get(p)})
-            if bad:
-                self.violate("C11", "user-file-changed", dict(ctx, bad=bad), self.user_changed_sig(bad))
-            text = res.text()
-            for p in m.warned:
-                ev["c11:override-warning-expected"] += 1
-                if "you modified it" not in text or posixpath.basename(p) not in text:
-                    self.violate("C11", "no-override-warning", dict(ctx, path=p), {"symptom": "no-warning"})
-            for t in targets:
-                f = m.fs.get(t)
-                if f is not None and f.owner == "user":
-                    self.out.nontrivial = True
-                    ev["c11:build-requested-on-user-owned:" + self.user_kind.get(t, "never-generated")] += 1
-                    if posixpath.dirname(m.rule_for(t)[0]) != posixpath.dirname(t) if m.rule_for(t) else False:
-                        ev["c11:default-rule-in-parent-dir"] += 1
-                    if self.role_changes[t] >= 2:
-                        ev["c11:role-changed>=2"] += 1
         # ---------- model file system must equal disk for all model-known paths (both directions) ----------
         if "fs" in ch:
             bad = []
@@ -547,26 +569,6 @@ class HistoryRunner:
             if bad:
                 prop = "C11" if any(b.get("owner") == "user" for b in bad) else "C01"
                 self.violate(prop, "fs-mismatch", dict(ctx, bad=bad), {"symptom": "fs-mismatch"})
-        # ---------- C02/C03: execution multiset ----------
-        if "execset" in ch:
-            if cex != mex:
-                extra = sorted((cex - mex).elements())
-                missing = sorted((mex - cex).elements())
-                prop = getattr(self, "execset_prop", "C02")
-                if nested and not missing:
-                    prop = "C02"   # the nested-checksum over-build (D12) is C02/C03's subject, nobody else's
-                if not missing and getattr(self, "execset_extra_prop", None):
-                    prop = self.execset_extra_prop   # an over-build is not this property's subject
-                self.violate(prop, "exec-set", dict(ctx, extra=extra, missing=missing),
-                             {"symptom": "extra" if extra and not missing else
-                              ("missing" if missing and not extra else "both"),
-                              "nested_csum": bool(nested and not missing)})
-            if self.pending_changes and mex and len(set(mex)) < len(m.targets):
-                self.out.nontrivial = True
-            if not self.pending_changes and not mex:
-                ev["c02:repeat-runs-nothing"] += 1
-            for c in self.pending_changes:
-                ev["c02:after-" + c] += 1
         if "csum" in ch:
             self.check_csum(targets, ok, ex, cex, mex, nested, ctx)
         if "calls" in ch:
